@@ -928,16 +928,23 @@ impl<'a> BTreeCursor<'a> {
             return Ok(true);
         }
 
-        let next = page.right_sibling();
-        if next.as_u64() == 0 {
-            self.slot = count;
-            return Ok(false);
-        }
+        // Deletes never unlink a leaf, so a leaf in the middle of the chain can be empty:
+        // skip such leaves (as `cursor_lower_bound` does) instead of ending the scan there.
+        let mut next = page.right_sibling();
+        loop {
+            if next.as_u64() == 0 {
+                self.slot = Page::new(&mut self.buf).cell_count() as u16;
+                return Ok(false);
+            }
 
-        self.leaf = next;
-        self.buf = self.pager.read_page(self.leaf)?;
-        self.slot = 0;
-        self.is_valid()
+            self.leaf = next;
+            self.buf = self.pager.read_page(self.leaf)?;
+            self.slot = 0;
+            if self.is_valid()? {
+                return Ok(true);
+            }
+            next = Page::new(&mut self.buf).right_sibling();
+        }
     }
 }
 
@@ -1023,5 +1030,37 @@ mod tests {
             }
         }
         assert_eq!(got, keys);
+    }
+    #[test]
+    fn scan_continues_past_a_leaf_emptied_by_deletes() {
+        let dir = tempdir().unwrap();
+        let path = dir.path().join("btree-empty-leaf.ndb");
+        let mut pager = Pager::open(&path).unwrap();
+        let mut tree = BTree::create(&mut pager).unwrap();
+
+        // 900-byte keys: a handful of cells per leaf, so 30 ordered inserts build several leaves.
+        let key = |i: u64| {
+            let mut k = vec![b'k'; 900];
+            k[0..8].copy_from_slice(&i.to_be_bytes());
+            k
+        };
+        for i in 0..30u64 {
+            tree.insert(&mut pager, &key(i), i).unwrap();
+        }
+        // Empty the whole second leaf (keys 4..8); leaves are never unlinked.
+        for i in 4..8u64 {
+            assert!(tree.delete(&mut pager, &key(i), i).unwrap());
+        }
+
+        let mut cur = tree.cursor_lower_bound(&pager, &[]).unwrap();
+        let mut got = Vec::new();
+        while cur.is_valid().unwrap() {
+            got.push(cur.payload().unwrap());
+            if !cur.advance().unwrap() {
+                break;
+            }
+        }
+        let want: Vec<u64> = (0..30).filter(|i| !(4..8).contains(i)).collect();
+        assert_eq!(got, want);
     }
 }
